@@ -50,3 +50,26 @@ func MakeSlice[S ~[]E, E any](n int, m ...int) S {
 	}
 	return make(S, n)
 }
+
+// knobs are tuning constants of the code under test that a world varies for
+// the current run (see rewrite.knobFiles); unset knobs keep the source value.
+var knobs = map[string]int{}
+
+// SetKnob sets a tuning knob for the runs until ResetKnobs.
+func SetKnob(name string, v int) { knobs[name] = v }
+
+// ResetKnobs restores every knob to the value in the source.
+func ResetKnobs() {
+	for k := range knobs {
+		delete(knobs, k)
+	}
+}
+
+// Knob returns the knob's value for this run, def (the source's constant) if unset.
+func Knob(name string, def int) int {
+	if v, ok := knobs[name]; ok {
+		Reach("knob." + name)
+		return v
+	}
+	return def
+}
